@@ -20,32 +20,48 @@ def ref_check(kd, f, fair=None):
     return ref.check(states, succ, labels, f, fair)
 
 
-def impl_mc(logic, K, f, F=None, as_text=False):
+def impl_mc(logic, K, f, F=None, as_text=False, num=None, parser=None):
+    """num: map from K's states to the model's numbers (states that are not 0..n-1: strings, tuples, mixed types)"""
     L = lang_module(logic)
     if as_text:
         arg = f
     else:
         arg = to_py(f, L)
-    if F is None:
-        r = call(lambda: L.modelcheck(K, arg))
-    else:
-        r = call(lambda: L.modelcheck(K, arg, F=F))
+    kw = {}
+    if F is not None:
+        kw['F'] = F
+    if parser is not None:
+        kw['parser'] = parser
+    r = call(lambda: L.modelcheck(K, arg, **kw))
+    return canon_answer(r, num)
+
+
+def canon_answer(r, num=None):
+    """('ok', set of states) -> ('ok', sorted list of state numbers)"""
     if r[0] == 'ok':
         v = r[1]
         if not isinstance(v, set):
             return ('err', 'other:not-a-set:' + type(v).__name__)
-        return ('ok', sorted(v))
+        if num is None:
+            try:
+                return ('ok', sorted(v))
+            except TypeError:
+                return ('err', 'other:unsortable-result')
+        try:
+            return ('ok', sorted(num(s) for s in v))
+        except (KeyError, TypeError):
+            return ('err', 'other:result-contains-a-non-state')
     return r
 
 
-def model_cmd(logic, K, f, F=None):
-    ks = kripke_sx(K)
+def model_cmd(logic, K, f, F=None, num=None, objlang='CTLS'):
+    ks = kripke_sx(K, num)
     if F is None:
         if logic == 'CTL':
             return ['ctl', ks, fsx(f)]
         if logic == 'LTL':
             return ['ltl', ks, fsx(f)]
-        return ['ctls', 'CTLS', ks, fsx(f)]
+        return ['ctls', objlang, ks, fsx(f)]
     Fs = [sorted(P) for P in F]
     return [{'CTL': 'ctlf', 'LTL': 'ltlf', 'CTLS': 'ctlsf'}[logic], ks, fsx(f), Fs]
 
@@ -65,22 +81,121 @@ def kd_py_aliased(kd):
     return alias_labels(kd_py({k: v for k, v in kd.items() if k != 'alias'}))
 
 
-def run_mc(R, logic, cases, label='', alias_every=5):
-    """cases: list of (kd, f).  Compares implementation and model; on a difference consults the
-    reference semantics to say which side violates exactness.  Returns number of mismatches."""
-    cmds, meta = [], []
-    for ci, (kd, f) in enumerate(cases):
-        aliased = alias_every and ci % alias_every == alias_every - 1
-        K = kd_py_aliased(kd) if aliased else kd_py(kd)
-        if aliased:
-            R.count('structures_with_shared_label_set_objects')
+# ---------- fork pool (deterministic: results are re-assembled in order) ----------
+def n_jobs():
+    try:
+        n = len(os.sched_getaffinity(0))
+    except Exception:  # noqa
+        n = os.cpu_count() or 1
+    return max(1, min(12, n - 2))
+
+
+def pmap_chunks(fn, items, jobs=None, per=6):
+    """ordered map of fn (list -> list) over chunks of items in a fork pool"""
+    jobs = n_jobs() if jobs is None else jobs
+    chunks = [items[i:i + per] for i in range(0, len(items), per)]
+    if jobs <= 1 or len(chunks) < 2:
+        res = [fn(c) for c in chunks]
+    else:
+        for lg in ('CTL', 'LTL', 'CTLS'):
+            lang_module(lg)                     # imported once, in the parent
+        import multiprocessing as mp
+        with mp.get_context('fork').Pool(jobs) as pool:
+            res = pool.map(fn, chunks, chunksize=1)
+    return [x for r in res for x in r]
+
+
+_PARSERS = {}
+
+
+def shared_parser(logic):
+    if logic not in _PARSERS:
+        _PARSERS[logic] = lang_module(logic).Parser()
+    return _PARSERS[logic]
+
+
+# ---------- presentations of one structure: states that are not 0..n-1, label containers that are not sets ----------
+_STATE_NAMES = ['idle', 'busy', 'err', 'wait', 'done', 'init', 'halt', 'run']
+RENAMES = {
+    'int1': lambda i: i + 1,                                            # 1-based
+    'sparse': lambda i: (-3 * i - 1) if i % 2 else 10 * i + 7,          # negative / sparse ints
+    'str': lambda i: _STATE_NAMES[i] if i < len(_STATE_NAMES) else 's%d' % i,
+    'tuple': lambda i: ('cpu', None) if i == 0 else (('cpu', i) if i % 2 else (None, i)),     # product states with an optional field
+    'mixed': lambda i: (i, str(i - 1), (i, None), frozenset([i]))[i % 4],        # mutually unorderable; '0' next to 0
+}
+RENAME_CYCLE = ['int1', 'str', 'tuple', 'mixed', 'sparse', 'mixed', 'str', 'tuple']
+CONTAINER_CYCLE = [None, 'frozenset', None, 'list', 'mixed', None]
+
+
+def renaming(name):
+    return RENAMES[name] if name else (lambda i: i)
+
+
+def install_containers(K, kind):
+    """re-install K's labelling through Kripke.replace_labelling_function (which stores the caller's dict as it is) with label
+    containers that are not sets: frozensets (immutable), lists, or a mixture incl. tuples; states without labels are omitted
+    in every other structure (the method completes the dict)"""
+    L = {}
+    for i, s in enumerate(list(K.states())):
+        ls = sorted(K.labels(s))
+        k = kind if kind != 'mixed' else ('set', 'frozenset', 'list', 'tuple')[i % 4]
+        if not ls and kind == 'list' and i % 2:
+            continue
+        L[s] = {'set': set, 'frozenset': frozenset, 'list': lambda x: list(reversed(x)), 'tuple': tuple}[k](ls)
+    K.replace_labelling_function(L)
+    return K
+
+
+def build_K(kd, alias=False, rename=None, containers=None):
+    """live Kripke object of kd (states 0..n-1) under a renaming of the states; returns (K, num) with num: state -> number"""
+    ren = renaming(rename)
+    inv = {}
+    for s in list(kd['S']) + [x for e in kd['R'] for x in e]:
+        inv[ren(s)] = s
+    kd2 = {'S': [ren(s) for s in kd['S']], 'S0': [ren(s) for s in kd['S0']], 'R': [(ren(a), ren(b)) for a, b in kd['R']],
+           'L': {ren(s): list(ls) for s, ls in kd['L'].items()}}
+    K = kd_py(kd2)
+    if containers:
+        install_containers(K, containers)
+    elif alias or kd.get('alias'):
+        alias_labels(K)
+    return K, inv
+
+
+def _mc_chunk(chunk):
+    """worker: [(logic, kd, f, alias, rename, containers)] -> [(answer, model command, K unchanged, number of states)]"""
+    out = []
+    for logic, kd, f, alias, rename, containers in chunk:
+        K, inv = build_K(kd, alias, rename, containers)
+        num = inv.__getitem__
         snap0 = kripke_snapshot(K)
-        r = impl_mc(logic, K, f)
-        cmds.append(model_cmd(logic, K, f))
-        meta.append((kd, f, r, kripke_snapshot(K) == snap0, len(K.states()), aliased))
-    outs = model_batch_parallel(cmds)
+        r = impl_mc(logic, K, f, num=num)
+        out.append((tuple(r), model_cmd(logic, K, f, num=num), kripke_snapshot(K) == snap0, len(K.states())))
+    return out
+
+
+def run_mc(R, logic, cases, label='', alias_every=5, varied=False):
+    """cases: list of (kd, f).  Compares implementation and model; on a difference consults the
+    reference semantics to say which side violates exactness.  Returns number of mismatches.
+    varied: EVERY case is presented with renamed states (1-based / sparse ints, strings, tuples with a None field, mutually
+    unorderable mixed types; the model stays on numbers through kripke_sx(K, num)) and every other one with label containers
+    that are not sets (install_containers)."""
+    items = []
+    for ci, (kd, f) in enumerate(cases):
+        aliased = bool(alias_every and ci % alias_every == alias_every - 1)
+        rename = RENAME_CYCLE[ci % len(RENAME_CYCLE)] if varied else None
+        containers = CONTAINER_CYCLE[ci % len(CONTAINER_CYCLE)] if varied else None
+        if aliased and not containers:
+            R.count('structures_with_shared_label_set_objects')
+        if varied:
+            R.count('states_renamed:' + rename)
+            if containers:
+                R.count('label_containers:' + containers)
+        items.append((logic, kd, f, aliased, rename, containers))
+    res = pmap_chunks(_mc_chunk, items, per=max(6, min(40, len(items) // (4 * n_jobs()) + 1)))
+    outs = model_batch_parallel([c for _, c, _, _ in res])
     bad = 0
-    for (kd, f, r, unchanged, n, aliased), o in zip(meta, outs):
+    for (_, kd, f, aliased, rename, containers), (r, _, unchanged, n), o in zip(items, res, outs):
         R.evaluations += 1
         m = model_obs(o)
         if tuple(r) != m or not unchanged:
@@ -92,11 +207,17 @@ def run_mc(R, logic, cases, label='', alias_every=5):
             R.violation('%s.modelcheck differs from the proved model%s' % (logic, '' if unchanged else ' (and modified K)'),
                         {'logic': logic, 'kripke': kd_json(kd), 'formula': f, 'formula_str': fstr(f),
                          'impl': r, 'model': m, 'reference': rr, 'labels_installed_with_shared_set_objects': bool(aliased),
+                         'states_renamed': rename, 'label_containers': containers,
+                         'states_as_given': None if not rename else [repr(renaming(rename)(s)) for s in kd['S']],
                          'impl_wrong_by_reference': (r[0] != 'ok' or r[1] != rr)})
             continue
         R.count('agree_' + logic + label)
+        w = max([len(g) - 1 for g in subformulas(f) if g[0] in NARY] or [0])
+        if w:
+            wh = R.cov.setdefault('cases_by_widest_or_and_node', {})
+            wh[str(w)] = wh.get(str(w), 0) + 1
         if r[0] == 'ok' and has_temporal(f) and 0 < len(r[1]) < n:
-            R.nontriv((logic, json.dumps(kd_json(kd), sort_keys=True), f))
+            R.nontriv((logic, json.dumps(kd_json(kd), sort_keys=True), f) + ((rename, containers) if varied else ()))
             R.sample({'logic': logic, 'kripke': kd_json(kd), 'formula': fstr(f), 'result': r[1]})
     return bad
 
@@ -106,13 +227,20 @@ def replay_mc(R, data):
     if d.get('stream') == 'long structures':
         print('long structures re-run: %d difference(s)' % long_structures(R, data.get('property', '?'), d['logic']))
         return
+    if d.get('stream') == 'live structures':
+        return replay_session(R, d)
+    if d.get('stream') == 'text channel':
+        return replay_text(R, d)
     kd = kd_from_json(d['kripke'])
     f = detuple(d['formula'])
-    K = kd_py_aliased(kd) if d.get('labels_installed_with_shared_set_objects') else kd_py(kd)
-    r = impl_mc(d['logic'], K, f)
-    m = model_obs(model_batch([model_cmd(d['logic'], K, f)])[0])
+    K, inv = build_K(kd, bool(d.get('labels_installed_with_shared_set_objects')), d.get('states_renamed'), d.get('label_containers'))
+    num = inv.__getitem__
+    r = impl_mc(d['logic'], K, f, num=num)
+    m = model_obs(model_batch([model_cmd(d['logic'], K, f, num=num)])[0])
     rr = sorted(ref_check(kd, f))
     print('formula  :', fstr(f))
+    if d.get('states_renamed') or d.get('label_containers'):
+        print('K        :', K, '  (state numbers: %s)' % {repr(k): v for k, v in inv.items()})
     print('impl     :', r)
     print('model    :', m)
     print('reference:', rr)
@@ -360,3 +488,666 @@ def run_print_stream(R, pid, logic, nform, kf_id='KF-print-a'):
         known_finding_line(pid, kf_id, '%s: formulas compared by printed form - %d explored inputs with atoms named like printed subformulas are answered as the '
                            'faithful model predicts, not exactly (e.g. %s on %s: got %s, exact %s)' % (logic, kf, fstr(f), json.dumps(kd_json(kd)), r, cl))
     R.cov['exotic_atom_stream'] = {'cases': len(cases), 'known_finding_cases': kf}
+
+
+# ---------- concrete syntax ----------
+def hand_text(f, logic, rng):
+    """hand-written concrete syntax of tree f in the grammar of `logic` (alternative operator symbols, quoted atoms,
+    irregular spacing, optional outer parentheses); CTL needs a blank between quantifier and temporal operator"""
+    def sym(t):
+        if t == 'not':
+            return rng.choice(['not ', '~', '~ ', 'not  '])
+        if t == 'or':
+            return rng.choice([' or ', ' | ', '|', '  or '])
+        if t == 'and':
+            return rng.choice([' and ', ' & ', '&', ' and  '])
+        return rng.choice([' --> ', '-->', ' -->'])
+
+    def unit(f):
+        t = f[0]
+        if t in ('true', 'false'):
+            return t
+        if t == 'ap':
+            return f[1] if rng.random() < 0.85 else '"%s"' % f[1]
+        if t == 'not':
+            return sym('not') + unit(f[1])
+        if t in ('X', 'F', 'G'):
+            if logic == 'CTL':
+                raise ValueError('bare path formula in CTL text')
+            return t + ' ' + unit(f[1])
+        if t in ('A', 'E'):
+            if logic == 'CTL':
+                g = f[1]
+                if g[0] in 'XFG':
+                    return t + ' ' + g[0] + ' ' + unit(g[1])
+                return t + rng.choice(['', ' ']) + '(' + unit(g[1]) + ' ' + g[0] + ' ' + unit(g[2]) + ')'
+            return t + ' ' + unit(f[1])
+        if t in ('U', 'R'):
+            return '(' + unit(f[1]) + ' ' + t + ' ' + unit(f[2]) + ')'
+        return '(' + sym(t).join(unit(g) for g in f[1:]) + ')'
+    s = unit(f)
+    if f[0] in ('or', 'and', 'imp', 'U', 'R') and rng.random() < 0.5:
+        s = s[1:-1]                      # the outermost operator needs no parentheses
+    elif logic != 'LTL' and rng.random() < 0.15:
+        s = '(' + s + ')'
+    return s
+
+
+# atom names of the documented grammar /[a-zA-Z_][a-zA-Z_0-9]*/: several characters, digits, underscores, names that BEGIN with an
+# operator letter or a reserved word
+ATOM_NAMES = ['req_1', 'ack2', '_x', 'Ab_9c', 'p0', 'q_', 'grant', 'x1y2', 'Up', 'Xs', 'Gnt_3', 'a', 'Rdy', 'E1', 'F_', 'not_p', 'or2',
+              'true_', 'Until', '__', 'z9', 'A_0']
+
+
+def rename_atoms(f, amap):
+    if f[0] == 'ap':
+        return ('ap', amap.get(f[1], f[1]))
+    if f[0] in ('true', 'false'):
+        return f
+    return (f[0],) + tuple(rename_atoms(g, amap) for g in f[1:])
+
+
+def rename_atoms_kd(kd, amap):
+    return dict(kd, L={s: [amap.get(a, a) for a in ls] for s, ls in kd['L'].items()})
+
+
+def flat1(f):
+    """the tree without its one-operand or/and nodes (the concrete syntax cannot express them: '(x)' is x)"""
+    if f[0] in ('true', 'false', 'ap'):
+        return f
+    if f[0] in NARY and len(f) == 2:
+        return flat1(f[1])
+    return (f[0],) + tuple(flat1(g) for g in f[1:])
+
+
+def _text_chunk(chunk):
+    out = []
+    for logic, kd, f, text, own_parser in chunk:
+        K = kd_py(kd)
+        snap0 = kripke_snapshot(K)
+        rt = impl_mc(logic, K, text, as_text=True, parser=None if own_parser else shared_parser(logic))
+        ro = impl_mc(logic, K, f)
+        out.append((tuple(rt), tuple(ro), model_cmd(logic, K, f), kripke_snapshot(K) == snap0, len(K.states())))
+    return out
+
+
+def run_text(R, logic, cases, label='_text'):
+    """the TEXT channel: every case (kd, f) gets multi-character atom names (ATOM_NAMES, in the labels of the structure and in
+    the formula) and is passed to modelcheck as hand-written concrete syntax (every operator incl. R and -->, alternative symbols,
+    quoted atoms) - with the caller's Parser and, in one case out of eight, with the default one.  The answer must be the model's
+    answer on the tree that the model's parser (proved print/parse model) reads from the text - which must be the intended tree -
+    and the answer of the object channel."""
+    rng = R.rng
+    items = []
+    for ci, (kd, f) in enumerate(cases):
+        names = rng.sample(ATOM_NAMES, 3)
+        amap = dict(zip(('p', 'q', 'r'), names))
+        f2, kd2 = rename_atoms(f, amap), rename_atoms_kd(kd, amap)
+        items.append((logic, kd2, f2, hand_text(f2, logic, rng), ci % 8 == 5))
+    res = pmap_chunks(_text_chunk, items, per=max(6, min(40, len(items) // (4 * n_jobs()) + 1)))
+    outs = model_batch_parallel([c for _, _, c, _, _ in res] + [['parse', lg, Q(t)] for lg, _, _, t, _ in items])
+    bad = skipped = 0
+    for i, ((_, kd, f, text, own), (rt, ro, _, unchanged, n)) in enumerate(zip(items, res)):
+        R.evaluations += 1
+        m = model_obs(outs[i])
+        pr = outs[len(items) + i]
+        if pr[0] != 'ok' or flat1(fparse(pr[1])) != flat1(f):
+            skipped += 1                    # (the writer produced something the proved parser reads differently: not a case)
+            continue
+        if rt != m or ro != m or not unchanged:
+            bad += 1
+            if bad <= 8:
+                R.violation('%s.modelcheck given TEXT %r: text channel %s, object channel %s, proved model %s' % (logic, text, rt, ro, m),
+                            {'stream': 'text channel', 'logic': logic, 'kripke': kd_json(kd), 'formula': f, 'formula_str': fstr(f), 'text': text,
+                             'default_parser': bool(own), 'impl_text': rt, 'impl_object': ro, 'model': m, 'K_unchanged': unchanged})
+            continue
+        R.count('agree_' + logic + label)
+        ops = R.cov.setdefault('text_channel_operators', {})
+        for g in subformulas(f):
+            if g[0] not in ('ap', 'true', 'false'):
+                ops[g[0]] = ops.get(g[0], 0) + 1
+        if rt[0] == 'ok' and has_temporal(f) and 0 < len(rt[1]) < n:
+            R.nontriv(('text', logic, json.dumps(kd_json(kd), sort_keys=True), text))
+    R.cov['text_channel'] = {'cases': len(items), 'differences': bad, 'skipped_model_parser_reads_another_tree': skipped}
+    return bad
+
+
+def replay_text(R, d):
+    kd, f, logic = kd_from_json(d['kripke']), detuple(d['formula']), d['logic']
+    K = kd_py(kd)
+    rt = impl_mc(logic, K, d['text'], as_text=True, parser=None if d.get('default_parser') else shared_parser(logic))
+    ro = impl_mc(logic, K, f)
+    outs = model_batch([model_cmd(logic, K, f), ['parse', logic, Q(d['text'])]])
+    m = model_obs(outs[0])
+    print('text          :', repr(d['text']))
+    print('intended tree :', fstr(f))
+    print('model parser  :', outs[1][0], fstr(fparse(outs[1][1])) if outs[1][0] == 'ok' else outs[1][1])
+    r = call(lambda: shared_parser(logic)(d['text']))
+    print('library parser:', r[0], fstr(tree_of(r[1])) if r[0] == 'ok' else r[1])
+    print('impl (text)   :', rt)
+    print('impl (object) :', ro)
+    print('model         :', m)
+    if tuple(rt) != m or tuple(ro) != m:
+        R.violation('replayed: implementation differs from the proved model', d)
+
+
+# ---------- structures that already carry labels spelled like the fresh names of the CTL* elimination ----------
+def stale_label_cases(rng, n, gen):
+    """structures that ALREADY carry labels spelled like the fresh names the elimination will generate for the quantified
+    subformulas of the very formula being checked ('[' + str(subformula) + ']' and its first fallback), on arbitrary states"""
+    import pyModelChecking.CTLS as CTLS
+    out = []
+    for _ in range(n):
+        kd = rand_kripke(rng, rng.randint(2, 5))
+        f = gen()
+        qs = [g for g in subformulas(f) if g[0] in ('A', 'E')]
+        if not qs:
+            continue
+        kd = dict(kd)
+        kd['L'] = {s: list(ls) for s, ls in kd['L'].items()}
+        for g in rng.sample(qs, min(len(qs), 2)):
+            name = '[%s]' % str(to_py(g, CTLS))
+            for nm in ([name] if rng.random() < 0.7 else [name, '[%s(0)]' % name]):
+                for s in kd['S']:
+                    if rng.random() < 0.5:
+                        kd['L'][s].append(nm)
+        out.append((kd, f))
+    return out
+
+
+# ---------- live structures: ONE Kripke object queried, edited by its owner, queried again; formula OBJECTS reused ----------
+def relation_holds(rel, states, lhs, rhs):
+    """lhs, rhs answers ('ok', sorted list); the identity as sets within K.states()"""
+    if lhs[0] != 'ok' or any(r[0] != 'ok' for r in rhs):
+        return False
+    S = set(states)
+    a = set(lhs[1])
+    rs = [set(r[1]) for r in rhs]
+    if rel == 'eq':
+        return a == rs[0]
+    if rel == 'compl':
+        return a == S - rs[0]
+    if rel == 'inter':
+        b = set(S)
+        for r in rs:
+            b &= r
+        return a == b
+    if rel == 'union':
+        b = set()
+        for r in rs:
+            b |= r
+        return a == b
+    if rel == 'cunion':
+        return a == (S - rs[0]) | rs[1]
+    raise ValueError(rel)
+
+
+def checkers_for(tree, objlang):
+    """the modelcheck functions an object of language module objlang with this tree may be passed to (the casts C04 exercises:
+    CTL <- PL/CTLS/LTL, LTL <- CTLS, CTLS <- CTL/LTL)"""
+    out = []
+    if is_ctl_state(tree) and (objlang in ('CTL', 'CTLS') or (objlang == 'LTL' and is_ltl_state(tree)) or (objlang == 'PL' and is_pl(tree))):
+        out.append('CTL')
+    if is_ltl_state(tree) and objlang in ('LTL', 'CTLS'):
+        out.append('LTL')
+    if is_ctls_state(tree) and objlang in ('CTLS', 'CTL', 'LTL') and (objlang != 'LTL' or is_ltl_state(tree)) and (objlang != 'CTL' or is_ctl_state(tree)):
+        out.append('CTLS')
+    return out
+
+
+def subst_refs(t, parts):
+    if t[0] == 'ref':
+        return parts[t[1]]
+    if t[0] in ('true', 'false', 'ap'):
+        return t
+    return (t[0],) + tuple(subst_refs(g, parts) for g in t[1:])
+
+
+def tcount(f):
+    return sum(1 for x in subformulas(f) if x[0] in TEMPORAL)
+
+
+def gen_until(rng, gen, ok, tries=200):
+    for _ in range(tries):
+        x = gen()
+        if ok(x):
+            return x
+    return x
+
+
+def gen_session(rng, mode, aps=('p', 'q')):
+    """one session = (structure, presentation, parts/pool of formulas, steps).  mode: 'CTL' | 'LTL' | 'CTLS' (the checker under
+    test; the others are called now and then on the same objects) | 'ALL' (every formula goes through every checker it belongs to)"""
+    REF0, REF1, REF2 = ('ref', 0), ('ref', 1), ('ref', 2)
+    kind = rng.choice({'ALL': ['TRI', 'TRI', 'CTL', 'LTL', 'CTLS'], 'CTL': ['CTL'] * 8 + ['TRI'] * 2, 'LTL': ['LTL'] * 8 + ['TRI'] * 2,
+                       'CTLS': ['CTLS'] * 7 + ['CTL', 'LTL', 'TRI']}[mode])        # (formulas of a smaller logic reach the checker under test through its casts)
+    bop = rng.choice(['and', 'or'])
+    brel = {'and': 'inter', 'or': 'union'}[bop]
+    if kind == 'CTL':
+        f = gen_until(rng, lambda: rand_ctl(rng, rng.randint(1, 2), aps), has_temporal)
+        g = rand_ctl(rng, rng.randint(0, 1), aps)
+        parts = [f, g]
+        q, op = rng.choice('AE'), rng.choice('XFGUR')
+        a, b = rng.sample([REF0, REF1], 2)
+        tq = (q, (op, a)) if op in 'XFG' else (q, (op, a, b))
+        pool = [(REF0, None), (REF1, None), (('not', REF0), ('compl', [0])), ((bop, REF0, REF1), (brel, [0, 1])), (tq, None),
+                (('imp', REF1, tq), ('cunion', [1, 4]))]
+        objlang = 'CTL' if rng.random() < 0.7 else 'CTLS'
+    elif kind == 'LTL':
+        g = gen_until(rng, lambda: rand_path(rng, rng.randint(1, 2), aps), lambda x: has_temporal(x) and tcount(x) <= 2)
+        h = gen_until(rng, lambda: rand_path(rng, 1, aps), lambda x: tcount(x) <= 1)
+        parts = [g, h]
+        op = rng.choice('XFGUR')
+        a, b = rng.sample([REF0, REF1], 2)
+        body = (op, a) if op in 'XFG' else (op, a, b)
+        pool = [(('A', REF0), None), (('A', REF1), None), (('A', ('not', REF0)), None),
+                (('A', ('and', REF0, REF1)), ('inter', [0, 1])), (('A', body), None), (('A', ('or', REF1, REF0)), None)]
+        objlang = 'LTL' if rng.random() < 0.7 else 'CTLS'
+    elif kind == 'CTLS':
+        f = gen_until(rng, lambda: rand_ctls_state(rng, rng.randint(1, 3), aps),
+                       lambda x: has_temporal(x) and tcount(x) <= 2 and any(y[0] in 'AE' and not is_ctl_state(y) for y in subformulas(x)))
+        g = gen_until(rng, lambda: rand_ctls_state(rng, rng.randint(0, 2), aps), lambda x: tcount(x) <= 1)
+        p = gen_until(rng, lambda: rand_path(rng, rng.randint(1, 2), aps, quant=True), lambda x: has_temporal(x) and tcount(x) <= 2)
+        parts = [f, g, p]
+        q, op = rng.choice('AE'), rng.choice('XFGUR')
+        a, b = rng.sample([REF0, REF1], 2)
+        tq = (q, (op, a)) if op in 'XFG' else (q, (op, a, b))
+        pool = [(REF0, None), (REF1, None), (('not', REF0), ('compl', [0])), ((bop, REF0, REF1), (brel, [0, 1])), (tq, None),
+                ((rng.choice('AE'), REF2), None), (('E', ('and', REF0, REF2)), None)]
+        objlang = 'CTLS'
+    else:   # TRI: A over a CTL path formula with propositional operands: a formula of all three logics
+        f, g = rand_pl(rng, rng.randint(0, 1), aps), rand_pl(rng, rng.randint(0, 1), aps)
+        parts = [f, g]
+        ops = rng.sample('XFGUR', 3)
+        pool = []
+        for op in ops:
+            a, b = rng.sample([REF0, REF1], 2)
+            pool.append((('A', (op, a) if op in 'XFG' else (op, a, b)), None))
+        objlang = rng.choice(['CTLS', 'CTLS', 'LTL', 'CTL'] if mode != 'LTL' else ['LTL', 'CTLS'])
+        if objlang != 'LTL':
+            pool.append((('not', pool[0][0]), ('compl', [0])))
+            pool.append((('E', pool[1][0][1]), None))
+    share = rng.random() < 0.6
+    entries = []
+    for t, rel in pool:
+        tree = subst_refs(t, parts)
+        if tcount(tree) > 4:
+            tree, t, rel = subst_refs(pool[0][0], parts), pool[0][0], None
+        entries.append({'tmpl': t if share else tree, 'tree': tree, 'rel': rel, 'checkers': checkers_for(tree, objlang)})
+    n = rng.randint(1, 4)
+    kd = rand_kripke(rng, n, aps)
+    S, E, L = list(kd['S']), set(kd['R']), {s: set(ls) for s, ls in kd['L'].items()}
+    steps, asked = [], []
+    main = mode if mode != 'ALL' else None
+
+    def logics_of(idx):
+        cs = entries[idx]['checkers']
+        if main is None:
+            ls = list(cs)
+        else:
+            if main not in cs:
+                return None
+            ls = [main] + [c for c in cs if c != main and rng.random() < 0.15]
+        rng.shuffle(ls)
+        return ls
+
+    def add_query():
+        for _ in range(20):
+            idx = rng.choice(asked) if asked and rng.random() < 0.65 else rng.randrange(len(entries))
+            ls = logics_of(idx)
+            if ls:
+                break
+        else:
+            return
+        texts = None
+        if rng.random() < 0.2:
+            try:
+                texts = {lg: hand_text(entries[idx]['tree'], lg, rng) for lg in ls}
+            except ValueError:
+                texts = None
+        asked.append(idx)
+        steps.append(['q', idx, ls, 'text' if texts else 'obj', rng.choice(['clear', 'junk', 'all', 'pop', 'none']), texts])
+
+    def add_sweep():
+        qs = []
+        for idx in range(len(entries)):
+            cs = entries[idx]['checkers'] if main is None else [c for c in entries[idx]['checkers'] if c == main]
+            if cs:
+                qs.append([idx, rng.choice(cs)])
+                asked.append(idx)
+        steps.append(['sweep', qs, rng.choice(['clear', 'junk', 'all', 'none'])])
+
+    def add_edit():
+        r = rng.random()
+        if r < 0.3:
+            s, a = rng.choice(S), rng.choice(aps)
+            if a in L[s]:
+                L[s].discard(a)
+                steps.append(['discard', s, a])
+            else:
+                L[s].add(a)
+                steps.append(['add', s, a])
+        elif r < 0.55:
+            newL = {s: sorted(a for a in aps if rng.random() < 0.5) for s in S}
+            cont = rng.choice(['set', 'set', 'frozenset', 'list', 'shared', 'mixed'])
+            omit = [s for s in S if not newL[s] and rng.random() < 0.5]
+            for s in S:
+                L[s] = set(newL[s])
+            steps.append(['relabel', [[s, newL[s]] for s in S if s not in omit], cont, rng.random() < 0.3])
+        elif r < 0.8 or len(S) >= 6:
+            free = [(a, b) for a in S for b in S if (a, b) not in E]
+            if not free:
+                return add_edit()
+            e = rng.choice(free)
+            E.add(e)
+            steps.append(['edge', e[0], e[1]])
+        else:
+            new = len(S)
+            succs = rng.sample(S + [new], rng.randint(1, min(2, len(S) + 1)))
+            preds = rng.sample(S, rng.randint(0, min(2, len(S))))
+            labs = sorted(a for a in aps if rng.random() < 0.5)
+            S.append(new)
+            L[new] = set(labs)
+            for d in succs:
+                E.add((new, d))
+            for s in preds:
+                E.add((s, new))
+            steps.append(['newstate', new, succs, preds, labs, rng.choice(['dict', 'replace'])])
+
+    for _ in range(rng.randint(1, 3)):
+        add_query()
+    if rng.random() < 0.5:
+        add_sweep()
+    for _ in range(rng.randint(2, 4)):
+        for _ in range(rng.randint(1, 2)):
+            add_edit()
+        if rng.random() < 0.35:
+            add_sweep()
+        for _ in range(rng.randint(1, 3)):
+            add_query()
+    return {'mode': mode, 'kind': kind, 'kd': kd_json(kd), 'rename': rng.choice([None, None, None] + sorted(RENAMES)), 'alias': rng.random() < 0.2,
+            'containers': rng.choice([None, None, None, 'frozenset', 'list', 'mixed']), 'objlang': objlang, 'parts': parts, 'pool': entries, 'steps': steps}
+
+
+def _build_shared(t, L, partobjs):
+    if t[0] == 'ref':
+        return partobjs[t[1]]
+    if t[0] in ('true', 'false', 'ap'):
+        return to_py(t, L)
+    return getattr(L, PYNAME[t[0]])(*[_build_shared(g, L, partobjs) for g in t[1:]])
+
+
+def _safe_tree(o):
+    try:
+        return tree_of(o)
+    except Exception as e:  # noqa
+        return ('unreadable', type(e).__name__)
+
+
+def _set_labels(K, s, labs):
+    """the owner of K changes the label set of state s to labs through the public API, whatever container holds it"""
+    cur = K.labels(s)
+    if isinstance(cur, set):
+        for a in list(cur):
+            if a not in labs:
+                cur.discard(a)
+        for a in labs:
+            cur.add(a)
+    elif isinstance(cur, list):
+        for a in list(cur):
+            if a not in labs:
+                cur.remove(a)
+        for a in labs:
+            if a not in cur:
+                cur.append(a)
+    else:
+        K.labelling_function()[s] = type(cur)(sorted(labs))
+
+
+def run_session(spec):
+    """executes one session on the real library; returns the list of observation records (one per modelcheck call / failed edit)"""
+    spec = detuple_spec(json.loads(json.dumps(spec)))
+    kd = kd_from_json(spec['kd'])
+    K, inv = build_K(kd, spec.get('alias'), spec.get('rename'), spec.get('containers'))
+    ren = renaming(spec.get('rename'))
+    num = inv.__getitem__
+    L = lang_module(spec['objlang'])
+    partobjs = [to_py(t, L) for t in spec['parts']]
+    objs = [_build_shared(e['tmpl'], L, partobjs) for e in spec['pool']]
+    watched = [(o, t) for o, t in zip(partobjs, spec['parts'])] + [(o, e['tree']) for o, e in zip(objs, spec['pool'])]
+    recs = []
+
+    def query(si, idx, logic, channel, clobber, text):
+        M = lang_module(logic)
+        ks = kripke_sx(K, num)
+        states = sorted(num(s) for s in K.states())
+        snap0 = kripke_snapshot(K)
+        if channel == 'text':
+            r = call(lambda: M.modelcheck(K, text, parser=shared_parser(logic)))
+        else:
+            r = call(lambda: M.modelcheck(K, objs[idx]))
+        ans = canon_answer(r, num)
+        snap1 = kripke_snapshot(K)
+        if r[0] == 'ok' and isinstance(r[1], set):
+            v = r[1]
+            if clobber == 'clear':
+                v.clear()
+            elif clobber == 'junk':
+                v.add('#junk')
+            elif clobber == 'all':
+                v.update(list(K.states()))
+                v.add(('#', 0))
+            elif clobber == 'pop' and v:
+                v.pop()
+        changed = [i for i, (o, t) in enumerate(watched) if _safe_tree(o) != t]
+        recs.append({'step': si, 'idx': idx, 'logic': logic, 'channel': channel, 'ans': tuple(ans), 'ks': ks, 'states': states,
+                     'unchanged': snap1 == snap0, 'result_is_callers': kripke_snapshot(K) == snap1,
+                     'changed': [('part %d' % i) if i < len(partobjs) else ('pool %d' % (i - len(partobjs))) for i in changed],
+                     'changed_to': [fstr(_safe_tree(watched[i][0])) if _safe_tree(watched[i][0])[0] != 'unreadable' else 'unreadable' for i in changed[:2]]})
+
+    for si, st in enumerate(spec['steps']):
+        k = st[0]
+        try:
+            if k == 'q':
+                for lg in st[2]:
+                    query(si, st[1], lg, st[3], st[4], (st[5] or {}).get(lg))
+            elif k == 'sweep':
+                for idx, lg in st[1]:
+                    query(si, idx, lg, 'obj', st[2], None)
+            elif k == 'add':
+                _set_labels(K, ren(st[1]), set(map(str, K.labels(ren(st[1])))) | {st[2]})
+            elif k == 'discard':
+                _set_labels(K, ren(st[1]), set(map(str, K.labels(ren(st[1])))) - {st[2]})
+            elif k == 'relabel':
+                cont, newL, shared = st[2], {}, {}
+                for i, (s, labs) in enumerate(st[1]):
+                    c = cont if cont != 'mixed' else ('set', 'frozenset', 'list', 'tuple')[i % 4]
+                    if c == 'shared':
+                        newL[ren(s)] = shared.setdefault(tuple(labs), set(labs))
+                    else:
+                        newL[ren(s)] = {'set': set, 'frozenset': frozenset, 'list': list, 'tuple': tuple}[c](labs)
+                if st[3]:
+                    newL[('not', 'a', 'state')] = {'p', 'q', 'zz'}
+                K.replace_labelling_function(newL)
+            elif k == 'edge':
+                K.add_edge(ren(st[1]), ren(st[2]))
+            elif k == 'newstate':
+                new = ren(st[1])
+                inv[new] = st[1]
+                for d in st[2]:
+                    K.add_edge(new, ren(d))
+                for s in st[3]:
+                    K.add_edge(ren(s), new)
+                if st[5] == 'dict':
+                    K.labelling_function()[new] = set(st[4])
+                else:
+                    nl = dict(K.labelling_function())
+                    if st[4]:
+                        nl[new] = set(st[4])
+                    K.replace_labelling_function(nl)
+        except Exception as e:  # noqa  (an edit of the owner through the public API must not fail)
+            recs.append({'step': si, 'edit_error': '%s: %s' % (type(e).__name__, str(e)[:200])})
+    return recs
+
+
+def detuple_spec(spec):
+    spec['parts'] = [detuple(t) for t in spec['parts']]
+    for e in spec['pool']:
+        e['tmpl'] = detuple(e['tmpl'])
+        e['tree'] = detuple(e['tree'])
+    return spec
+
+
+def _session_chunk(chunk):
+    return [run_session(spec) for spec in chunk]
+
+
+def _rec_model_cmd(spec, rec):
+    tree = detuple(spec['pool'][rec['idx']]['tree'])
+    if rec['logic'] == 'CTL':
+        return ['ctl', rec['ks'], fsx(tree)]
+    if rec['logic'] == 'LTL':
+        return ['ltl', rec['ks'], fsx(tree)]
+    return ['ctls', spec['objlang'], rec['ks'], fsx(tree)]
+
+
+def describe_step(st):
+    k = st[0]
+    if k == 'q':
+        return 'query pool[%d] through %s (%s channel), then %s the returned set' % (st[1], '/'.join(st[2]), st[3], st[4])
+    if k == 'sweep':
+        return 'query ' + ', '.join('pool[%d] by %s' % (i, lg) for i, lg in st[1])
+    if k in ('add', 'discard'):
+        return 'owner: labels(%s) %s %r' % (st[1], k, st[2])
+    if k == 'relabel':
+        return 'owner: replace_labelling_function(%s) with %s containers%s' % (dict((s, l) for s, l in st[1]), st[2], ' + an entry for a non-state' if st[3] else '')
+    if k == 'edge':
+        return 'owner: add_edge(%s, %s)' % (st[1], st[2])
+    return 'owner: new state %s with edges to %s and from %s, labels %s (installed via %s)' % (st[1], st[2], st[3], st[4], st[5])
+
+
+def judge_session(spec, recs, outs):
+    """-> list of (step, kind, message, details) problems of one session; outs: model answers of the query records in order"""
+    probs = []
+    qrecs = [r for r in recs if 'edit_error' not in r]
+    for r in recs:
+        if 'edit_error' in r:
+            probs.append((r['step'], 'edit', 'an edit of the owner through the public API raised %s' % r['edit_error'], {}))
+    by_step = {}
+    for r, o in zip(qrecs, outs):
+        m = model_obs(o)
+        r['model'] = m
+        what = 'pool[%d] = %s' % (r['idx'], fstr(detuple(spec['pool'][r['idx']]['tree'])))
+        det = {'query': what, 'logic': r['logic'], 'channel': r['channel'], 'impl': r['ans'], 'model': m}
+        if r['changed']:
+            probs.append((r['step'], 'formula', '%s.modelcheck rewrote a formula object of the caller in place (%s is now %s)' % (r['logic'], r['changed'][0], r['changed_to'][:1]), det))
+        if not r['unchanged']:
+            probs.append((r['step'], 'K', '%s.modelcheck modified the structure it was given' % r['logic'], det))
+        if not r['result_is_callers']:
+            probs.append((r['step'], 'alias', 'the set returned by %s.modelcheck is part of K: editing it changed the structure' % r['logic'], det))
+        if tuple(r['ans']) != m:
+            probs.append((r['step'], 'answer', '%s.modelcheck on a live structure (queried, edited by its owner, queried again; formula objects reused) '
+                          'differs from the proved model on the structure AS IT IS NOW: %s' % (r['logic'], what), det))
+        by_step.setdefault(r['step'], []).append(r)
+    for si, rs in by_step.items():
+        st = spec['steps'][si]
+        if st[0] == 'q' and len(rs) > 1:
+            a0 = rs[0]
+            for r in rs[1:]:
+                if not relation_holds('eq', a0['states'], a0['ans'], [r['ans']]):
+                    probs.append((si, 'law', 'the SAME formula object through %s and %s on the same structure: different sets' % (a0['logic'], r['logic']),
+                                  {'query': 'pool[%d]' % a0['idx'], a0['logic']: a0['ans'], r['logic']: r['ans']}))
+        if st[0] == 'sweep':
+            ans = {r['idx']: r for r in rs}
+            for idx, r in ans.items():
+                rel = spec['pool'][idx]['rel']
+                if rel and all(j in ans for j in rel[1]):
+                    if not relation_holds(rel[0], r['states'], r['ans'], [ans[j]['ans'] for j in rel[1]]):
+                        probs.append((si, 'law', 'law %s fails on a live structure: pool[%d] vs pool%s' % (rel[0], idx, rel[1]),
+                                      {'lhs': r['ans'], 'rhs': [ans[j]['ans'] for j in rel[1]], 'checkers': [r['logic']] + [ans[j]['logic'] for j in rel[1]]}))
+    probs.sort(key=lambda p: p[0])
+    return probs
+
+
+def run_live(R, mode, n, label=''):
+    """n sessions on live structures (gen_session/run_session); every answer against the proved model on the presentation read back at
+    the time of the call; formula objects, K and the caller's ownership of results monitored directly"""
+    rng = R.rng
+    specs = [gen_session(rng, mode) for _ in range(n)]
+    allrecs = pmap_chunks(_session_chunk, specs, per=max(2, min(10, n // (3 * n_jobs()) + 1)))
+    cmds, spans = [], []
+    for spec, recs in zip(specs, allrecs):
+        q = [_rec_model_cmd(spec, r) for r in recs if 'edit_error' not in r]
+        spans.append((len(cmds), len(cmds) + len(q)))
+        cmds += q
+    outs = model_batch_parallel(cmds)
+    bad = 0
+    failing = []
+    hist = R.cov.setdefault('live_structures' + label, {'sessions': 0, 'modelcheck_calls': 0, 'calls_after_an_edit': 0, 'calls_repeating_an_earlier_query_after_an_edit': 0,
+                                                         'edits': {}, 'state_presentations': {}, 'label_containers': {}, 'object_language': {}, 'checker': {},
+                                                         'text_channel_calls': 0, 'sessions_with_problems': 0})
+    for spec, recs, (a, b) in zip(specs, allrecs, spans):
+        probs = judge_session(spec, recs, outs[a:b])
+        hist['sessions'] += 1
+        for st in spec['steps']:
+            if st[0] not in ('q', 'sweep'):
+                hist['edits'][st[0]] = hist['edits'].get(st[0], 0) + 1
+        for key, val in (('state_presentations', spec['rename'] or '0..n-1'), ('label_containers', spec['containers'] or ('shared sets' if spec['alias'] else 'sets')),
+                         ('object_language', spec['objlang'])):
+            hist[key][val] = hist[key].get(val, 0) + 1
+        first_edit = min([i for i, st in enumerate(spec['steps']) if st[0] not in ('q', 'sweep')] or [10 ** 9])
+        seen_before = set()
+        for r in recs:
+            if 'edit_error' in r:
+                continue
+            R.evaluations += 1
+            hist['modelcheck_calls'] += 1
+            hist['checker'][r['logic']] = hist['checker'].get(r['logic'], 0) + 1
+            if r['channel'] == 'text':
+                hist['text_channel_calls'] += 1
+            if r['step'] > first_edit:
+                hist['calls_after_an_edit'] += 1
+                if (r['idx'], r['logic']) in seen_before:
+                    hist['calls_repeating_an_earlier_query_after_an_edit'] += 1
+                if not probs and r['ans'][0] == 'ok' and 0 < len(r['ans'][1]) < len(r['states']):
+                    R.nontriv(('live', mode, json.dumps(spec['kd'], sort_keys=True), repr(spec['steps'][:r['step'] + 1]), r['idx'], r['logic']))
+            seen_before.add((r['idx'], r['logic']))
+        if probs:
+            bad += 1
+            hist['sessions_with_problems'] += 1
+            own = [p for p in probs if mode == 'ALL' or p[3].get('logic') == mode]      # headline: a problem of the checker under test
+            failing.append((0 if own else 1, bad, spec, (own or probs)[0], probs))
+        elif hist['sessions'] <= 2:
+            R.sample({'live_session': {'structure': spec['kd'], 'states_presented_as': spec['rename'] or '0..n-1', 'object_language': spec['objlang'],
+                                       'pool': [fstr(detuple(e['tree'])) for e in spec['pool']], 'steps': [describe_step(st) for st in spec['steps']]}}, limit=8)
+    for _, _, spec, (si, kind, msg, det), probs in sorted(failing, key=lambda x: x[:2])[:6]:
+        R.violation(msg, {'stream': 'live structures', 'logic': mode, 'session': spec, 'step': si, 'step_description': describe_step(spec['steps'][si]),
+                          'kind': kind, 'details': det, 'all_problems': [(p[0], p[1], p[2][:160]) for p in probs[:8]]})
+    return bad
+
+
+def replay_session(R, d):
+    spec = d['session']
+    recs = run_session(spec)
+    spec = detuple_spec(json.loads(json.dumps(spec)))
+    outs = model_batch([_rec_model_cmd(spec, r) for r in recs if 'edit_error' not in r])
+    probs = judge_session(spec, recs, outs)
+    print('structure:', spec['kd'], ' states presented as:', spec['rename'] or '0..n-1', ' label containers:', spec['containers'] or ('shared sets' if spec['alias'] else 'sets'))
+    print('formula objects (language module %s, %s):' % (spec['objlang'], 'composed from shared part objects' if any('ref' in json.dumps(e['tmpl']) for e in spec['pool']) else 'built separately'))
+    for i, e in enumerate(spec['pool']):
+        print('   pool[%d] = %s' % (i, fstr(e['tree'])))
+    by = {}
+    for r in recs:
+        by.setdefault(r['step'], []).append(r)
+    for si, st in enumerate(spec['steps']):
+        print('step %2d: %s' % (si, describe_step(st)))
+        for r in by.get(si, []):
+            if 'edit_error' in r:
+                print('          RAISED', r['edit_error'])
+            else:
+                print('          %-4s pool[%d]  impl %s   model %s%s%s' % (r['logic'], r['idx'], r['ans'], r['model'], '' if tuple(r['ans']) == r['model'] else '   <-- DIFFERENT',
+                                                                      ('   formula objects changed: %s -> %s' % (r['changed'], r['changed_to'])) if r['changed'] else ''))
+    for p in probs[:6]:
+        print('PROBLEM at step %d: %s' % (p[0], p[2]))
+    if probs:
+        R.violation('replayed: ' + probs[0][2], d)
